@@ -31,6 +31,9 @@ C13_FNS = [
     "<{K}::span::Span<'i> as core::cmp::PartialEq>::eq",
     "<{K}::span::Span<'i> as core::hash::Hash>::hash",
     "position::Position::<'i>::span",
+    # LinesSpan::next cuts the lines with these two (seed C13-8 broke `lines` through find_line_end)
+    "position::Position::<'i>::find_line_start",
+    "position::Position::<'i>::find_line_end",
     "<{K}::position::Position<'i> as core::cmp::PartialEq>::eq",
     "<{K}::position::Position<'i> as core::hash::Hash>::hash",
 ]
@@ -169,7 +172,7 @@ def run(ctx):
         names = C13_FNS
         r = ctx.rule("R13-SIB", "Span::{new,get,start,end,split,as_str,lines,lines_span}, merge_spans, line "
                                 "iterators, PartialEq/Hash/Ord are the same programs as pest's")
-        floor = 19
+        floor = 21
     ok = compare_pairs(ctx, r, fs, names)
     r.require(floor, "function pairs")
     # constructors: the rename must denote the same body
